@@ -21,7 +21,7 @@ theorem tie_spend_allowance (s : State) (owner spender amt : Nat) (ctx : types_C
             | some s' =>
               (none, if s.allow.get (owner, spender) = maxU256 then []
                      else [Go.Effect.mk "e.contract.keeper.SetErc20CpcAllowance_owner_spender" [(s'.allow.get (owner, spender) : Int)]])) := by
-  unfold keeper_erc20CustomPrecompiledContractRwTransferFrom_spendAllowance spendAllowance viewOf
+  unfold keeper_erc20CustomPrecompiledContractRwTransferFrom_spendAllowance keeper_erc20CustomPrecompiledContractRwTransferFrom_spendAllowance.k1 spendAllowance viewOf
   have hM : (115792089237316195423570985008687907853269984665640564039457584007913129639935 : Int) = ((maxU256 : Nat) : Int) := by
     unfold maxU256; omega
   rw [hM]
